@@ -190,6 +190,20 @@ def classify(F, fn, input_term=None, domain=None, target=0, expand=True):
                         s = ()
                     if s:
                         state[t["otherwise"]] = union(state.get(t["otherwise"], ()), s)
+            if not handled and dt[0] in ("ite", "un", "not"):
+                # a boolean combination of tests of the input (`lo <= x && x <= hi`, RangeInclusive::contains): the set where it holds
+                tr = _sat(dt, input_term, full)
+                if tr is not None:
+                    handled = True
+                    tr = inter(cur, tr)
+                    fl = minus(cur, tr)
+                    for v, tg in zip(t["vals"], t["ts"]):
+                        s_ = tr if v else fl
+                        if s_:
+                            state[tg] = union(state.get(tg, ()), s_)
+                    s_ = () if len(t["vals"]) == 2 else (tr if 1 not in t["vals"] else fl)
+                    if s_:
+                        state[t["otherwise"]] = union(state.get(t["otherwise"], ()), s_)
             if not handled:
                 if depends_on(dt, input_term):
                     raise Unrecognised("control depends on the input through %s" % G.show(dt))
@@ -282,10 +296,38 @@ def classify(F, fn, input_term=None, domain=None, target=0, expand=True):
     return input_term, pieces, tb
 
 
+def _sat(dt, input_term, full):
+    """interval set of the inputs for which the boolean term dt is true; None when dt is not a boolean combination of
+    comparisons of the input with constants"""
+    dt = G.strip(dt)
+    INF = full[-1][1]
+    if dt[0] == "c":
+        return full if dt[1] else ()
+    if dt[0] in ("bin", "cmp") and dt[1] in G.CMPS:
+        x, y, op = G.strip(dt[2]), G.strip(dt[3]), dt[1]
+        if y == input_term and x[0] == "c":
+            x, y, op = y, x, G.SWAP[op]
+        if x == input_term and y[0] == "c":
+            k = y[1]
+            sat = {"Eq": ((k, k),) if 0 <= k <= INF else (), "Ne": minus(full, ((k, k),)), "Lt": ((0, k - 1),) if k > 0 else (), "Le": ((0, min(k, INF)),) if k >= 0 else (),
+                   "Gt": ((k + 1, INF),) if k < INF else (), "Ge": ((max(k, 0), INF),) if k <= INF else ()}[op]
+            return inter(full, norm(sat))
+        return None
+    if dt[0] == "ite":
+        c_, a_, b_ = _sat(dt[1], input_term, full), _sat(dt[2], input_term, full), _sat(dt[3], input_term, full)
+        if c_ is None or a_ is None or b_ is None:
+            return None
+        return union(inter(c_, a_), inter(minus(full, c_), b_))
+    if (dt[0] == "un" and dt[1] == "Not") or dt[0] == "not":
+        x_ = _sat(dt[2] if dt[0] == "un" else dt[1], input_term, full)
+        return None if x_ is None else minus(full, x_)
+    return None
+
+
 def _tested_term(dt):
     """the non-constant side of a comparison with a constant (else the term itself); through a constant-valued choice on such a
     comparison"""
-    if isinstance(dt, tuple) and dt and dt[0] == "ite" and dt[2][0] == "c" and dt[3][0] == "c" and isinstance(dt[1], tuple) and dt[1] and dt[1][0] in ("cmp", "bin"):
+    if isinstance(dt, tuple) and dt and dt[0] == "ite" and isinstance(dt[1], tuple) and dt[1] and dt[1][0] in ("cmp", "bin"):
         return _tested_term(("bin",) + tuple(dt[1][1:4]))
     if isinstance(dt, tuple) and dt and dt[0] == "bin" and dt[1] in G.CMPS:
         x, y = G.strip(dt[2]), G.strip(dt[3])
